@@ -23,24 +23,24 @@ CLAIMED = {
             "Reference model (trusted, ~120 lines); two sources, two reported providers; nothing is asserted right after a failed or cancelled refresh; expiry asserted only in histories where all sources responded since the last report.",
             "DESIGN.md 6/C06, 13"),
     "C14": ("model_checking", "S",
-            "stateless model checking (iterative context bounding, preemption bound 2 quick / 3 thorough) of the real subscriber built with the instrumentation overlay: N1 two publishers synced concurrently with a reading and a never-reading listener; N2 two successive syncs while a listener registers/cancels at scheduler-chosen moments and a reader checks the latest-synced value at the moment each event arrives; N3 failing announce-triggered sync",
+            "stateless model checking (iterative context bounding, preemption bound 2 quick / 3 thorough) of the real subscriber built with the instrumentation overlay: N1 two publishers synced concurrently with a reading and a never-reading listener; N2 two successive syncs while a listener registers/cancels at scheduler-chosen moments and a reader checks the latest-synced value at the moment each event arrives; N3 failing announce-triggered sync; N4 an explicit / an announce-triggered sync racing with Close while a listener registered beforehand reads only at the end",
             "Every explored schedule is an execution of the real code: each produced notification (CID, publisher, count = hook calls of that sync, error flag) must reach every listener registered before the sync was invoked and cancelled after it returned exactly once and in completion order; a never-read listener must not keep sync threads from finishing (quiescence, not a timeout, decides); cancelled listeners' channels end closed after their queued events; the latest-synced value already shows an event's CID when it is received. Evidence reports per scenario the bound all shards completed.",
-            "Cooperative scheduling at synchronization operations only; priority selects in source order; chain blocks pre-stored in N1/N2 so that only head requests remain; quick tier completes bound 0 for N1/N2 on all shards and higher bounds partially (reported).",
+            "Cooperative scheduling at synchronization operations and at the library's one racy plain field (handler.syncer, DESIGN 13.6); every multi-case select is a priority select whose first-tried case is a scheduler decision (a non-default first case costs one unit of the bound, like a preemption); chain blocks pre-stored in N1/N2/N4 so that only head requests remain; quick tier completes bound 0 for N1/N2 on all shards and higher bounds partially (reported). A free-running `go test -race` pass over the same kinds of thread bodies (harness/subrace) runs after the shards: sampled, not the deciding step; it guards the assumption that all inter-thread communication goes through the scheduled operations, so `exhaustive` is false for the check as a whole (counter scheduled_part_exhaustive_at_bound).",
             "DESIGN.md 6/C14, 13"),
     "C15": ("model_checking", "S",
             "stateless model checking (iterative context bounding, preemption bound 2 quick / 3 thorough) of the real subscriber built with the instrumentation overlay: explicit sync || Close (one and two Close callers), announce-triggered sync || Close, listener registration/cancellation || Close, and each of 11 entry points called after Close returned; Close can start at every scheduling point of a sync",
             "Every explored schedule is an execution of the real code. 'Never returns' is decided by quiescence in the bubble with the caller unfinished (no timeout); after the first Close return the observation log must contain no block-hook call and no destination-store write; a running explicit sync ends successfully or is refused with the shutdown error; listener channels end closed; no goroutine with a library frame remains after cleanup. Evidence reports per scenario the bound all shards completed.",
-            "Cooperative scheduling at synchronization operations only; priority selects in source order; one publisher; quick tier cut by an internal budget (exhaustive:false, completed bound reported).",
+            "Cooperative scheduling at synchronization operations and at handler.syncer (DESIGN 13.6); every multi-case select is a priority select whose first-tried case is a scheduler decision (a non-default first case costs one unit of the bound, like a preemption); one publisher; quick tier cut by an internal budget (exhaustive:false, completed bound reported). A free-running `go test -race` pass over the same kinds of thread bodies (harness/subrace) runs after the shards: sampled, not the deciding step; it guards the assumption that all inter-thread communication goes through the scheduled operations, so `exhaustive` is false for the check as a whole (counter scheduled_part_exhaustive_at_bound).",
             "DESIGN.md 6/C15, 13"),
     "C08": ("model_checking", "S",
             "stateless model checking (iterative context bounding, preemption bound 2 quick / 3 thorough) of the real subscriber built with the instrumentation overlay: scenarios S1 announcement burst, S2 burst with a failing request, S3 k publishers x concurrency limit, S4 announcements + explicit sync, S5 two explicit syncs with scoped hooks; scheduling points at every lock, atomic, channel operation, select, spawn, publisher request, hook call and observation",
             "Every explored schedule is an execution of the real code; per publisher the hook log must split into batches that match the success events one to one, every ad up to the latest-synced one is reported exactly once, the last announced head is synced or has an error event, requests of one publisher never overlap, scoped hooks get exactly their own sync, concurrent announce-triggered syncs stay within the limit. Lost announcements show as the absence of a later event, which only quiescence detection (not a timeout) decides. Evidence reports per scenario the preemption bound that all shards completed.",
-            "Cooperative scheduling at synchronization operations only; priority selects in source order; bursts of 3, at most 3 publishers; quick tier is cut by an internal budget (exhaustive:false, bound completed reported).",
+            "Cooperative scheduling at synchronization operations and at handler.syncer (DESIGN 13.6); every multi-case select is a priority select whose first-tried case is a scheduler decision (a non-default first case costs one unit of the bound, like a preemption); bursts of 3, at most 3 publishers; quick tier is cut by an internal budget (exhaustive:false, bound completed reported). A free-running `go test -race` pass over the same kinds of thread bodies (harness/subrace) runs after the shards: sampled, not the deciding step; it guards the assumption that all inter-thread communication goes through the scheduled operations, so `exhaustive` is false for the check as a whole (counter scheduled_part_exhaustive_at_bound).",
             "DESIGN.md 6/C08, 13"),
     "C16": ("model_checking", "S",
             "stateless model checking of the real announce.Receiver built with the instrumentation overlay (mutex shim, scheduling points at every lock, channel operation and select): all interleavings, up to 2 (quick) / 3 (thorough) preemptions, of every set of 2-3 threads x 1-2 operations containing a Close (459 configurations quick); plus every operation sequence of length <=4/5 run one call per goroutine in a synctest bubble and compared at quiescence with a reference model (returned value / still blocked)",
             "Every explored schedule is an execution of the real receiver (traces_validated_against_impl = executions); 'a call never returns' is decided by quiescence in the bubble (no enabled thread, caller parked on a lock whose predicate is false), not by a timeout; the reference model says which calls may wait and what each returns. The schedule and return-path dependence (which return path an earlier call took) is exactly what two scripted close tests cannot cover.",
-            "Receiver without pubsub (nil host); select statements try cases in source order; cooperative scheduling at synchronization operations only (data races are out of scope here).",
+            "Receiver without pubsub (nil host); every multi-case select is a priority select whose first-tried case is a scheduler decision (a non-default first case costs one unit of the bound, like a preemption); cooperative scheduling at synchronization operations only. A free-running `go test -race` pass over the same kinds of thread bodies (harness/subrace) runs after the shards: sampled, not the deciding step; it guards the assumption that all inter-thread communication goes through the scheduled operations, so `exhaustive` is false for the check as a whole (counter scheduled_part_exhaustive_at_bound).",
             "DESIGN.md 6/C16"),
     "C04": ("fault_enumeration", "F",
             "fault enumeration over the real subscriber / sync client / publisher stack in a synctest bubble (virtual time): for each of 42 (quick) / 72 (thorough) modes {libp2p-HTTP discovery, plain HTTP} x {1,2 addresses} x {queried head, explicit head, announce-triggered} x {unsegmented, segments of 1, 2} x {fresh, partly synced}, every fault kind (5 HTTP statuses, connection closed, short body, corrupt / substituted / empty body, stalled response, caller cancellation, hook failure) at every request position of the fault-free run, singly (quick) and in pairs within an attempt and across attempt and retry (thorough), each followed by a fault-free retry on the same subscriber",
